@@ -25,6 +25,7 @@ REQUIRED = ["pe_total_match_raw", "pe_total_build_raw", "pe_total_credentials_re
             "credentials_required_of_descriptors", "build_reports_missing_credentials", "validate_rejects_without_complete_selection",
             "wallet_verifier_agree_partial", "wallet_verifier_disagree_witness",
             "old_code_max_zero_selects_all", "old_code_min_above_max_returns_partial",
+            "fact_array_envelope_skips_no_entry", "array_envelope_positions_preserved", "array_envelope_junk_entry_rejected", "pe_total_parse_array_envelope",
             "fact_resolve_evaluates_path_nested_first", "path_nested_always_evaluated", "fact_apply_max_counts_taken_members", "fact_regex_timeout_bounded", "fact_fulfill_callers_return_on_error", "fact_consumer_wiring", "fact_match_result_consumers", "fact_apply_max_test_first", "fact_apply_rejects_min_above_max",
             "old_code_panics_array_pattern", "old_code_type_only_filter_matches_any_array",
             "old_code_panics_pick_min_only", "old_code_accepts_shadowed_entry",
@@ -508,6 +509,25 @@ def run(ctx):
             for row in op.get("pres", []):
                 pres.append([dict(creds[x["ref"]], raw=x["raw"]) if "ref" in x else x["full"] for x in row])
             mok = re.match(r"validate ok \{(.*)\}$", line)
+            # envelope parsing: an array envelope with an entry that is not a presentation must be refused as a whole
+            if "junk" in (op.get("entries") or []) and line != "validate envelope-err":
+                report("C12:envelope-with-junk-entry-parsed",
+                       f"array envelope with entries {op['entries']} was parsed ({line[:40]}): positions of the presentations shift", i)
+            # accepted => every mapping's first path resolves IN THE RAW PRESENTED JSON (independent evaluation over the bytes
+            # received) to a string or an object, and to the same object the parsed envelope holds there
+            if mok and (op.get("envRaw", "").lstrip()[:1] in "[{"):
+                try:
+                    raw_env = json.loads(op["envRaw"])
+                    for m in op.get("sub", []):
+                        rr = navigate_path(m["path"], raw_env)
+                        pr = navigate_path(m["path"], op["env"])
+                        unresolved = rr is None or not isinstance(rr[0], (str, dict)) or (isinstance(rr[0], dict) and (pr is None or pr[0] != rr[0]))
+                        if unresolved:
+                            report("C12:accepted-path-does-not-resolve-in-raw-envelope",
+                                   f"accepted although {m['path']} of the PRESENTED envelope is {json.dumps(rr[0])[:40] if rr else 'nothing'}", i)
+                    counts["raw-envelope-checked"] += 1
+                except (Undecided, ValueError):
+                    counts["oracle-undecided"] += 1
             if mok and not unique_ids:
                 counts["validate:duplicate-descriptor-ids-outside-domain"] += 1
             elif mok:
